@@ -420,6 +420,18 @@ CloneTree(n) == n \in live /\ CloneOf("clonetree", n, CloneSrc("clonetree", n), 
 CloneList(n) == n \in live /\ LET L == ListOf(fo, n)
                               IN CloneOf("clonelist", n, CloneSrc("clonelist", n), From(L, IndexOf(L, n)))
 
+\* A clone call during which an allocation fails (the failat-th node block or
+\* name buffer, or the failmeta-th value object): nothing is made, nothing of
+\* the half-made copy stays allocated (grow = 0), the source is untouched.
+CloneKinds == {"clonenode", "clonetree", "clonelist"}
+ValuedIn(src) == Cardinality({i \in 1..Len(src) : val[src[i]] # 0})
+CloneFail(kind, n, failat, failmeta) ==
+  /\ CanClone(kind, n)
+  /\ UNCHANGED <<live, hp, name, val, fo>>
+  /\ obs' = [a |-> "clonefail", arg |-> [kind |-> kind, n |-> n, failat |-> failat, failmeta |-> failmeta], t1 |-> 0,
+             exp |-> [ret |-> 0, freed |-> <<>>, links |-> Links(hp, live), names |-> name, vals |-> val,
+                      metas |-> Cardinality({m \in live : val[m] # 0}), grow |-> 0, fired |-> 1]]
+
 \* mpt_node_move(&from, dst); the two lists belong to different trees
 Move(s, d) ==
   /\ CanMove(s, d)
@@ -558,6 +570,9 @@ Modify ==
   \/ \E n \in Ids : NUnlink(n) \/ Destroy(n) \/ Clear(n) \/ Relink(n)
                     \/ CloneNode(n) \/ CloneTree(n) \/ CloneList(n)
   \/ \E a \in Ids, b \in Ids : Move(a, b) \/ Swap(a, b)
+  \/ \E n \in live, kind \in CloneKinds :
+        \/ \E k \in 1..Len(CloneSrc(kind, n)) : CloneFail(kind, n, k, 0)
+        \/ \E j \in 1..ValuedIn(CloneSrc(kind, n)) : CloneFail(kind, n, 0, j)
 Query ==
   \/ \E n \in Ids, pos \in Pos : PosQ(n, pos)
   \/ \E n \in Ids, pos \in Pos, key \in Keys : LocQ(n, pos, key) \/ FindQ(n, key, pos)
